@@ -147,6 +147,9 @@ func VerifFileConcurrent() {
 			verifNativeUnlock()
 			if verifBool("late") {
 				verifYield() // first access to the page only later (e.g. while a commit waits for this reader)
+				verifNativeSleep()
+				verifNativeSleep()
+				verifNativeSleep()
 			}
 			rp, perr := rtx.Page(id0)
 			verifAssert(perr == nil, "page access")
